@@ -114,6 +114,9 @@ ReadFailed(e) ==
   \cup Chk("C06.written_readable", (cont /\ b.wantLen >= 0 /\ first /\ e.err # "nil" /\ ~srcFailed) => (e.err = "eof" /\ g2 = b.wantLen))
   \cup Chk("C15.reported", (first /\ e.err # "nil" /\ srcFailed) =>
              (e.err = "injected" \/ (e.err = "eof" /\ b.ref.verdict = "eof" /\ pulled >= b.ref.end)))
+  \* ... and byte for byte what compress/flate returns (its output equals the reference's, see BeginFailed)
+  \cup Chk("C02.same_bytes", (b.std.verdict = "eof") => (e.ok /\ g2 <= b.std.len))
+  \cup Chk("C15.correct_prefix", b.failing => (e.ok /\ g2 <= b.ref.len))
   \cup Chk("C15.sticky", (~first /\ rerr = "injected") => (e.err = "injected" /\ e.n = 0))
   \cup Chk("C15.not_invented", (first /\ e.err = "injected") => srcFailed)
   \cup Chk("C11.data_before_error", (first /\ e.err = "injected" /\ b.decAt >= 0) => g2 >= b.decAt)
